@@ -122,3 +122,30 @@ TOPOLOGIES = {
     'mesh4': (['A', 'B', 'C', 'D'], [('A', 'B'), ('B', 'C'), ('C', 'D'), ('D', 'A'), ('A', 'C')]),
     'full4': (['A', 'B', 'C', 'D'], [('A', 'B'), ('B', 'C'), ('C', 'D'), ('D', 'A'), ('A', 'C'), ('B', 'D')]),
 }
+
+
+def service(rid, src, dst, mode='mode 1', include=None, strict=True, bidir=False, bw=100e9, N=None, M=None, spacing=50e9,
+            trx='Voyager', nch=None, power=None):
+    r = {'request-id': str(rid), 'source': f'trx {src}', 'destination': f'trx {dst}', 'src-tp-id': f'trx {src}',
+         'dst-tp-id': f'trx {dst}', 'bidirectional': bidir,
+         'path-constraints': {'te-bandwidth': {'technology': 'flexi-grid', 'trx_type': trx, 'trx_mode': mode,
+                                               'effective-freq-slot': [{'N': N, 'M': M}], 'spacing': spacing,
+                                               'max-nb-of-channel': nch, 'output-power': power, 'path_bandwidth': bw}}}
+    if include:
+        r['explicit-route-objects'] = {'route-object-include-exclude': [
+            {'explicit-route-usage': 'route-include-ero', 'index': k,
+             'num-unnum-hop': {'node-id': n, 'link-tp-id': 'link-tp-id is not used',
+                               'hop-type': ('STRICT' if (strict[k] if isinstance(strict, (list, tuple)) else strict) else 'LOOSE')}}
+            for k, n in enumerate(include)]}
+    return r
+
+
+def sync(sid, ids):
+    return {'synchronization-id': str(sid), 'svec': {'relaxable': False, 'disjointness': 'node link', 'request-id-number': [str(i) for i in ids]}}
+
+
+def roadm_links(path):
+    """set of directed ROADM-to-ROADM hops of an element path"""
+    from gnpy.core.elements import Roadm
+    rs = [e.uid for e in path if isinstance(e, Roadm)]
+    return list(zip(rs, rs[1:]))
